@@ -282,6 +282,10 @@ FLAGSETS = {
     "r_d_o": ["-r", "-d", "{F}", "-o", "{O}"], "d": ["-d", "{F}"], "o": ["-o", "{O}"], "d_o": ["-d", "{F}", "-o", "{O}"],
     "c_r": ["-c", "-r"], "unknown": ["-x"], "unknown_late": ["-r", "-z"], "missing_arg": ["-r", "-d"], "stray": ["-r", "extra"],
     "stray2": ["extra1", "extra2"],
+    # repeated, re-ordered and clustered options (POSIX getopts semantics: the last -d / -o wins, -rd F == -r -d F)
+    "r_r": ["-r", "-r"], "r_d_d": ["-r", "-d", "/data/first.root", "-d", "{F}"], "o_d_r": ["-o", "{O}", "-d", "{F}", "-r"],
+    "c_c": ["-c", "-c"], "cluster_rd": ["-rd", "{F}"], "cluster_ro": ["-ro", "{O}"], "r_o_o": ["-r", "-o", "/out2/first.root", "-o", "{O}"],
+    "dashdash": ["-r", "--", "extra"], "dashdash_ok": ["-r", "--"], "d_attached": ["-r", "-d{F}"],
 }
 F_POOL = ["/data/other.root", "/data/sub/dir/file_2.root", "root://host//path/f.root", "/data/with space.root"]
 O_POOL = ["/out2", "/out2/named.root", "/results", "/out2/second.root"]
@@ -292,28 +296,42 @@ def flag_args(fs, F, O):
 
 
 def parse_flags(args):
-    """Reference reading of the documented command line."""
+    """Reference reading of the documented command line: POSIX getopts with the option string "d:o:cr"."""
     compile_, run, d, o = True, True, None, None
     i = 0
     while i < len(args):
         a = args[i]
-        if a == "-c":
-            run = False
-        elif a == "-r":
-            compile_ = False
-        elif a in ("-d", "-o"):
-            if i + 1 >= len(args):
-                return {"error": 10}
-            if a == "-d":
-                d = args[i + 1]
-            else:
-                o = args[i + 1]
+        if a == "--":
             i += 1
-        elif a.startswith("-"):
-            return {"error": 10}
-        else:
-            return {"error": 1}
+            break
+        if not a.startswith("-") or a == "-":
+            break
+        j = 1
+        while j < len(a):
+            c = a[j]
+            if c == "c":
+                run = False
+            elif c == "r":
+                compile_ = False
+            elif c in ("d", "o"):
+                if j + 1 < len(a):
+                    val = a[j + 1:]
+                else:
+                    i += 1
+                    if i >= len(args):
+                        return {"error": 10}
+                    val = args[i]
+                if c == "d":
+                    d = val
+                else:
+                    o = val
+                break
+            else:
+                return {"error": 10}
+            j += 1
         i += 1
+    if i < len(args):
+        return {"error": 1}
     return {"error": None, "compile": compile_, "run": run, "d": d, "o": o}
 
 
@@ -332,7 +350,7 @@ def variants(backend, rng=None):
     return out
 
 
-SWEEP_FLAGS = ["none", "c", "r", "r_d", "r_o", "r_d_o", "d", "o", "d_o"]
+SWEEP_FLAGS = ["none", "c", "r", "r_d", "r_o", "r_d_o", "d", "o", "d_o", "r_d_d", "o_d_r", "cluster_rd", "r_o_o"]
 
 
 def _sweep_space():
@@ -375,7 +393,8 @@ def make_case(prop, tier, seed, i):
         if j > 0 and rng.random() < 0.08:
             ops.append({"op": "replace_container"})
         if shape == "build_then_runs":
-            fs = "none" if j == 0 else rng.choice(["r", "r", "r_d", "r_o", "r_d_o", "r_d_o"])
+            fs = "none" if j == 0 else rng.choice(["r", "r", "r_d", "r_o", "r_d_o", "r_d_o", "r_r", "r_d_d", "o_d_r", "cluster_rd",
+                                                   "cluster_ro", "r_o_o", "d_attached", "dashdash_ok"])
         elif shape == "c_then_runs":
             fs = "c" if j == 0 else rng.choice(["r", "r_d", "r_o", "r_d_o"])
         else:
